@@ -283,6 +283,19 @@ theorem src_d128_roundtrip (d : Dec) (h : C01.InFormat d) :
   rw [hf]
   simp only [hu, Except.map]
 
+/-- the same with the writer translated from the source as well (`_pack_decimal128` from the decimal triple on): the two
+    translated halves compose to the identity on the whole format. -/
+theorem src_d128_roundtrip_both (d : Dec) (h : C01.InFormat d) :
+    (pack_decimal128 (if d.sign then 1 else 0) (d.coeff : Int) d.exp).bind unpack_decimal128 = .ok (decView d) := by
+  rw [pack_decimal128_eq_model]
+  exact src_d128_roundtrip d h
+
+/-- the translated writer is total on the format and produces 16 bytes. -/
+theorem src_d128_pack_total (d : Dec) (h : C01.InFormat d) :
+    ∃ b, pack_decimal128 (if d.sign then 1 else 0) (d.coeff : Int) d.exp = .ok b ∧ b.length = 16 := by
+  rw [pack_decimal128_eq_model]
+  exact C01.d128_pack_total d h
+
 /-- the translated reader raises IndexError on a buffer shorter than 16 bytes and nothing else on any buffer. -/
 theorem src_d128_unpack_errors (buf : Bytes) :
     (buf.length < 16 → unpack_decimal128 buf = .error .IndexError) ∧
@@ -301,5 +314,8 @@ theorem src_d128_unpack_errors (buf : Bytes) :
     exact ⟨_, rfl⟩
 
 example : unpack_decimal128 [12, 0, 0, 0, 0, 0, 0, 0, 0, 0, 0, 0, 0, 0, 0x40, 0xB0] = .ok (1, -12, 0) := by decide +kernel
+example : pack_decimal128 1 12 0 = .ok [12, 0, 0, 0, 0, 0, 0, 0, 0, 0, 0, 0, 0, 0, 0x40, 0xB0] := by decide +kernel
+example : pack_decimal128 0 1 (-7000) = .error .ValueError ∧ pack_decimal128 0 (2 ^ 128) 0 = .error .IndexError := by
+  decide +kernel
 
 end NumbersModel.Props.C01.Src
